@@ -204,34 +204,45 @@ Proof. intros H. unfold umul. replace (a * b <? 2 ^ 64) with true by lia. reflex
 Lemma usub_ok m a b : b <= a -> usub m a b = Ok (a - b).
 Proof. intros H. unfold usub. replace (b <=? a) with true by lia. reflexivity. Qed.
 
+Lemma udiv_ok m a b : b <> 0 -> udiv m a b = Ok (a / b).
+Proof. intros H. unfold udiv. replace (b =? 0) with false by lia. reflexivity. Qed.
+
 Lemma ms_new_ok m e file off len :
-  nthN file off = Some len -> off + 1 + len * e <= lenN file -> lenN file < 2 ^ 64 ->
+  e <> 0 -> nthN file off = Some len -> off + 1 + len * e <= lenN file -> lenN file < 2 ^ 64 ->
   ms_new m e file off = VOk (mkms file off len).
 Proof.
-  intros Hn Hl Hf. pose proof (nthN_Some_lt _ _ _ Hn) as Ho. unfold ms_new.
+  intros He Hn Hl Hf. pose proof (nthN_Some_lt _ _ _ Hn) as Ho. unfold ms_new.
   replace (lenN file <=? off) with false by lia.
   rewrite (idx_some _ _ _ Hn). cbn [vlift vbind].
-  rewrite uadd_ok by lia. cbn [vlift vbind]. rewrite umul_ok by lia. cbn [vlift vbind].
+  rewrite usub_ok by lia. cbn [vlift vbind]. rewrite usub_ok by lia. cbn [vlift vbind].
+  rewrite udiv_ok by exact He. cbn [vlift vbind].
+  assert (Hq : len <= (lenN file - off - 1) / e) by (apply N.div_le_lower_bound; [exact He|lia]).
+  replace ((lenN file - off - 1) / e <? len) with false by lia.
   rewrite uadd_ok by lia. cbn [vlift vbind].
-  replace (lenN file <? off + 1 + len * e) with false by lia.
   replace (lenN file <? off + 1) with false by lia. reflexivity.
 Qed.
 
 Lemma ms_new_short m e file off len :
-  nthN file off = Some len -> lenN file < off + 1 + len * e -> off + 1 + len * e < 2 ^ 64 ->
+  e <> 0 -> nthN file off = Some len -> lenN file < off + 1 + len * e ->
   ms_new m e file off = VErr UnexpectedEof.
 Proof.
-  intros Hn Hl Hf. pose proof (nthN_Some_lt _ _ _ Hn) as Ho. unfold ms_new.
+  intros He Hn Hl. pose proof (nthN_Some_lt _ _ _ Hn) as Ho. unfold ms_new.
   replace (lenN file <=? off) with false by lia.
   rewrite (idx_some _ _ _ Hn). cbn [vlift vbind].
-  rewrite uadd_ok by lia. cbn [vlift vbind]. rewrite umul_ok by lia. cbn [vlift vbind].
-  rewrite uadd_ok by lia. cbn [vlift vbind].
-  replace (lenN file <? off + 1 + len * e) with true by lia. reflexivity.
+  rewrite usub_ok by lia. cbn [vlift vbind]. rewrite usub_ok by lia. cbn [vlift vbind].
+  rewrite udiv_ok by exact He. cbn [vlift vbind].
+  assert (Hq : (lenN file - off - 1) / e < len) by (apply N.div_lt_upper_bound; [exact He|lia]).
+  replace ((lenN file - off - 1) / e <? len) with true by lia. reflexivity.
 Qed.
 
 Lemma ms_map_len_ok m e f o len : len * e + 1 < 2 ^ 64 -> ms_map_len m e (mkms f o len) = Ok (len * e + 1).
 Proof.
   intros H. unfold ms_map_len. cbn [ms_len]. rewrite umul_ok by lia. cbn [bind]. apply uadd_ok. exact H.
+Qed.
+
+Lemma words_to_bytes_ok m n : n < 2 ^ 61 -> f_words_to_bytes m n = Ok (n * 8).
+Proof.
+  intros H. unfold f_words_to_bytes. cbn [bind]. change bits_WORD_BYTES with 8. apply umul_ok. lia.
 Qed.
 
 Lemma mb_new_ok m file off len :
@@ -241,22 +252,23 @@ Proof.
   intros Hn Hl Hf. pose proof (nthN_Some_lt _ _ _ Hn) as Ho. unfold mb_new.
   replace (lenN file <=? off) with false by lia.
   rewrite (idx_some _ _ _ Hn). cbn [vlift vbind].
-  rewrite uadd_ok by lia. cbn [vlift vbind]. rewrite bytes_to_words_spec by lia. cbn [vlift vbind].
+  rewrite usub_ok by lia. cbn [vlift vbind]. rewrite usub_ok by lia. cbn [vlift vbind].
+  rewrite words_to_bytes_ok by lia. cbn [vlift vbind].
+  replace ((lenN file - off - 1) * 8 <? len) with false by lia.
   rewrite uadd_ok by lia. cbn [vlift vbind].
-  replace (lenN file <? off + 1 + (len + 7) / 8) with false by lia.
   replace (lenN file <? off + 1) with false by lia. reflexivity.
 Qed.
 
 Lemma mb_new_short m file off len :
-  nthN file off = Some len -> lenN file < off + 1 + (len + 7) / 8 -> off + 1 + (len + 7) / 8 < 2 ^ 61 ->
+  nthN file off = Some len -> lenN file < off + 1 + (len + 7) / 8 -> lenN file < 2 ^ 61 ->
   mb_new m file off = VErr UnexpectedEof.
 Proof.
   intros Hn Hl Hf. pose proof (nthN_Some_lt _ _ _ Hn) as Ho. unfold mb_new.
   replace (lenN file <=? off) with false by lia.
   rewrite (idx_some _ _ _ Hn). cbn [vlift vbind].
-  rewrite uadd_ok by lia. cbn [vlift vbind]. rewrite bytes_to_words_spec by lia. cbn [vlift vbind].
-  rewrite uadd_ok by lia. cbn [vlift vbind].
-  replace (lenN file <? off + 1 + (len + 7) / 8) with true by lia. reflexivity.
+  rewrite usub_ok by lia. cbn [vlift vbind]. rewrite usub_ok by lia. cbn [vlift vbind].
+  rewrite words_to_bytes_ok by lia. cbn [vlift vbind].
+  replace ((lenN file - off - 1) * 8 <? len) with true by lia. reflexivity.
 Qed.
 
 Lemma mb_map_len_ok m f o len : len + 7 < 2 ^ 64 -> mb_map_len m (mkmb f o len) = Ok ((len + 7) / 8 + 1).
@@ -271,7 +283,7 @@ Proof.
   intros Hn Hw Hl Hf. pose proof (nthN_Some_lt _ _ _ Hn) as Ho. unfold rm_new.
   replace (lenN file <=? off) with false by lia.
   rewrite (idx_some _ _ _ Hn). cbn [vlift vbind]. rewrite uadd_ok by lia. cbn [vlift vbind].
-  rewrite (ms_new_ok m 1 file (off + 1) nw Hw) by lia. reflexivity.
+  rewrite (ms_new_ok m 1 file (off + 1) nw ltac:(lia) Hw) by lia. reflexivity.
 Qed.
 
 (* cut after the bit length, or inside the words *)
@@ -290,7 +302,7 @@ Proof.
   replace (lenN file <=? off) with false by lia.
   destruct (nthN_lt_Some file off) as [len Hn]; [lia|].
   rewrite (idx_some _ _ _ Hn). cbn [vlift vbind]. rewrite uadd_ok by lia. cbn [vlift vbind].
-  rewrite (ms_new_short m 1 file (off + 1) nw Hw) by lia. reflexivity.
+  rewrite (ms_new_short m 1 file (off + 1) nw ltac:(lia) Hw) by lia. reflexivity.
 Qed.
 
 Lemma rm_map_ok m len f o nw : 1 <= o -> nw + 2 < 2 ^ 64 ->
@@ -549,7 +561,7 @@ Lemma vec_view_ok m xs file off :
 Proof.
   unfold view_good. cbn [enc]. unfold enc_vec. rewrite !lenN_cons. intros Ha Hl Hf.
   pose proof (agrees_hd _ _ _ _ Ha ltac:(lia)) as Hn.
-  cbn [ty_of view_new]. rewrite (ms_new_ok m 1 file off (lenN xs) Hn) by lia.
+  cbn [ty_of view_new]. rewrite (ms_new_ok m 1 file off (lenN xs) ltac:(lia) Hn) by lia.
   eexists. split; [reflexivity|]. cbn [view_map_offset view_map_len ms_map_offset ms_off]. split; [reflexivity|].
   split; [rewrite ms_map_len_ok by lia; f_equal; lia|].
   assert (Hi : ms_items1 (mkms file off (lenN xs)) = Ok xs).
@@ -565,7 +577,7 @@ Proof.
   unfold view_good. cbn [enc]. unfold enc_pairs. fold (flat_pairs ps). rewrite !lenN_cons. intros Ha Hl Hf.
   pose proof (lenN_flat_pairs ps) as Hfp.
   pose proof (agrees_hd _ _ _ _ Ha ltac:(lia)) as Hn.
-  cbn [ty_of view_new]. rewrite (ms_new_ok m 2 file off (lenN ps) Hn) by lia.
+  cbn [ty_of view_new]. rewrite (ms_new_ok m 2 file off (lenN ps) ltac:(lia) Hn) by lia.
   eexists. split; [reflexivity|]. cbn [view_map_offset view_map_len ms_map_offset ms_off]. split; [reflexivity|].
   split; [rewrite ms_map_len_ok by lia; f_equal; lia|].
   assert (Hi : ms_items2 (mkms file off (lenN ps)) = Ok ps).
@@ -709,10 +721,10 @@ Proof.
     (destruct (N.le_gt_cases (lenN file) off) as [Ho|Ho]; [apply view_new_out; exact Ho|]);
     cbn [enc ty_of view_new] in *.
   - unfold enc_vec in *. rewrite lenN_cons in *. pose proof (agrees_hd _ _ _ _ Ha Ho) as Hn.
-    rewrite (ms_new_short m 1 file off _ Hn) by lia. reflexivity.
+    rewrite (ms_new_short m 1 file off _ ltac:(lia) Hn) by lia. reflexivity.
   - unfold enc_pairs in *. fold (flat_pairs ps) in *. rewrite lenN_cons, lenN_flat_pairs in *.
     pose proof (agrees_hd _ _ _ _ Ha Ho) as Hn.
-    rewrite (ms_new_short m 2 file off _ Hn) by lia. reflexivity.
+    rewrite (ms_new_short m 2 file off _ ltac:(lia) Hn) by lia. reflexivity.
   - unfold enc_bytes in *. rewrite lenN_cons, lenN_pack in *. pose proof (agrees_hd _ _ _ _ Ha Ho) as Hn.
     rewrite (mb_new_short m file off _ Hn) by lia. reflexivity.
   - unfold enc_bytes in *. rewrite lenN_cons, lenN_pack in *. pose proof (agrees_hd _ _ _ _ Ha Ho) as Hn.
@@ -805,4 +817,221 @@ Proof.
   - intros ->. unfold mm_new. rewrite Hlt. reflexivity.
   - intros Hin. apply (view_ok m tv tfile (start pre vals k) (wf_nth _ _ _ Hwf Hk) Hat); lia.
   - intros Hin. apply (view_cut m tv tfile (start pre vals k) Hat); lia.
+Qed.
+
+(* ================================================================== the length check before the repair 5f925c7 *)
+
+Definition f12_file : list N := [4; 3; 2; 2 ^ 64 - 3; 2 ^ 64 - 3].   (* the serialized Vec<u64> [3, 2, 2^64-3, 2^64-3] *)
+
+Theorem len_overflow_old_refuted :
+  ms_new_old Debug 1 f12_file 3 = VPanic POverflow /\
+  ms_new_old Release 1 f12_file 3 = VOk (mkms f12_file 3 (2 ^ 64 - 3)) /\
+  ms_items1 (mkms f12_file 3 (2 ^ 64 - 3)) = OOB SITE_MAP_WORD /\
+  mb_new_old Debug [2 ^ 64 - 1] 0 = VPanic POverflow /\
+  mb_new_old Release [2 ^ 64 - 1] 0 = VOk (mkmb [2 ^ 64 - 1] 0 (2 ^ 64 - 1)) /\
+  (forall m, ms_new m 1 f12_file 3 = VErr UnexpectedEof) /\
+  (forall m, mb_new m [2 ^ 64 - 1] 0 = VErr UnexpectedEof).
+Proof.
+  split; [reflexivity|]. split; [reflexivity|]. split; [reflexivity|]. split; [reflexivity|]. split; [reflexivity|].
+  split; intros []; reflexivity.
+Qed.
+
+(* ================================================================== ANY file: no panic, views inside the file *)
+
+Definition ms_inside (e : N) (file : list N) (s : mslice) : Prop :=
+  ms_file s = file /\ ms_off s + 1 + ms_len s * e <= lenN file.
+Definition mb_inside (file : list N) (b : mbytes) : Prop :=
+  mb_file b = file /\ mb_off b + 1 + (mb_len b + 7) / 8 <= lenN file.
+
+(* the element range a view borrows lies inside the file *)
+Fixpoint view_inside (file : list N) (v : view) : Prop :=
+  match v with
+  | VwVec s => ms_inside 1 file s
+  | VwPairs s => ms_inside 2 file s
+  | VwBytes b | VwStr b => mb_inside file b
+  | VwRaw r => ms_inside 1 file (rm_data r)
+  | VwInt i => ms_inside 1 file (rm_data (im_data i))
+  | VwOpt o => mo_off o < lenN file /\ match mo_data o with Some v' => view_inside file v' | None => True end
+  end.
+
+(* every read through the view finds its memory: the borrowed range is read back in full *)
+Fixpoint view_backed (v : view) : Prop :=
+  match v with
+  | VwVec s => exists l, ms_words 1 s = Ok l /\ lenN l = ms_len s
+  | VwPairs s => exists l, ms_words 2 s = Ok l /\ lenN l = ms_len s * 2
+  | VwBytes b | VwStr b => exists l, mb_bytes b = Ok l /\ lenN l = mb_len b
+  | VwRaw r => exists l, ms_words 1 (rm_data r) = Ok l /\ lenN l = ms_len (rm_data r)
+  | VwInt i => exists l, ms_words 1 (rm_data (im_data i)) = Ok l /\ lenN l = ms_len (rm_data (im_data i))
+  | VwOpt o => match mo_data o with Some v' => view_backed v' | None => True end
+  end.
+
+Lemma ms_inside_backed e file s : ms_inside e file s -> exists l, ms_words e s = Ok l /\ lenN l = ms_len s * e.
+Proof.
+  intros (Hf & Hl). unfold ms_words. rewrite Hf.
+  destruct (mem_read_ok file (ms_off s + 1) (ms_len s * e)) as (l & Hr & Hn & _); [lia|].
+  exists l. split; assumption.
+Qed.
+
+Lemma length_le_bytes_n n w : length (le_bytes_n n w) = n.
+Proof. revert w. induction n as [|n IH]; intros w; cbn [le_bytes_n length]; [reflexivity|]. rewrite IH. reflexivity. Qed.
+Lemma lenN_flat_le_bytes ws : lenN (flat_map le_bytes ws) = 8 * lenN ws.
+Proof.
+  induction ws as [|w t IH]; [reflexivity|]. cbn [flat_map]. rewrite lenN_app, IH, lenN_cons.
+  unfold le_bytes, lenN at 1. rewrite length_le_bytes_n. lia.
+Qed.
+
+Lemma mb_inside_backed file b : mb_inside file b -> exists l, mb_bytes b = Ok l /\ lenN l = mb_len b.
+Proof.
+  intros (Hf & Hl). unfold mb_bytes. rewrite Hf.
+  unfold bytes_to_words. change bits_WORD_BYTES with 8. change (8 - 1) with 7.
+  destruct (mem_read_ok file (mb_off b + 1) ((mb_len b + 7) / 8)) as (ws & -> & Hn & _); [lia|]. cbn [bind].
+  destruct (takeN_ok (flat_map le_bytes ws) (mb_len b)) as (l & -> & Hll & _); [rewrite lenN_flat_le_bytes; lia|].
+  exists l. split; [reflexivity|exact Hll].
+Qed.
+
+Lemma view_inside_backed file v : view_inside file v -> view_backed v.
+Proof.
+  revert v. fix IH 1. intros [s|s|b|b|r|i|[[v'|] o d]]; cbn [view_inside view_backed mo_data].
+  - intros H. destruct (ms_inside_backed 1 file s H) as (l & E & Hl). exists l. split; [exact E|lia].
+  - intros H. exact (ms_inside_backed 2 file s H).
+  - apply mb_inside_backed.
+  - apply mb_inside_backed.
+  - intros H. destruct (ms_inside_backed 1 file _ H) as (l & E & Hl). exists l. split; [exact E|lia].
+  - intros H. destruct (ms_inside_backed 1 file _ H) as (l & E & Hl). exists l. split; [exact E|lia].
+  - intros (_ & H). apply IH. exact H.
+  - intros _. exact I.
+Qed.
+
+(* what `new` can do on an arbitrary file *)
+Definition new_safe {V} (r : vres V) (P : V -> Prop) : Prop :=
+  match r with VOk v => P v | VErr _ => True | VPanic _ => False | VOOB _ => False end.
+
+Lemma ms_new_any m e file off :
+  e <> 0 -> lenN file < 2 ^ 64 ->
+  new_safe (ms_new m e file off) (fun s => s = mkms file off (ms_len s) /\ off + 1 + ms_len s * e <= lenN file).
+Proof.
+  intros He Hf. unfold ms_new. destruct (N.leb_spec (lenN file) off) as [Ho|Ho]; [exact I|].
+  destruct (nthN_lt_Some file off Ho) as [len Hn]. rewrite (idx_some _ _ _ Hn). cbn [vlift vbind].
+  rewrite usub_ok by lia. cbn [vlift vbind]. rewrite usub_ok by lia. cbn [vlift vbind].
+  rewrite udiv_ok by exact He. cbn [vlift vbind].
+  destruct (N.ltb_spec ((lenN file - off - 1) / e) len) as [Hq|Hq]; [exact I|].
+  rewrite uadd_ok by lia. cbn [vlift vbind]. replace (lenN file <? off + 1) with false by lia.
+  cbn [new_safe ms_len]. split; [reflexivity|].
+  assert (e * len <= lenN file - off - 1).
+  { etransitivity; [apply N.mul_le_mono_l; exact Hq|]. apply N.mul_div_le. exact He. }
+  lia.
+Qed.
+
+Lemma mb_new_any m file off :
+  lenN file < 2 ^ 61 ->
+  new_safe (mb_new m file off) (fun b => b = mkmb file off (mb_len b) /\ off + 1 + (mb_len b + 7) / 8 <= lenN file).
+Proof.
+  intros Hf. unfold mb_new. destruct (N.leb_spec (lenN file) off) as [Ho|Ho]; [exact I|].
+  destruct (nthN_lt_Some file off Ho) as [len Hn]. rewrite (idx_some _ _ _ Hn). cbn [vlift vbind].
+  rewrite usub_ok by lia. cbn [vlift vbind]. rewrite usub_ok by lia. cbn [vlift vbind].
+  rewrite words_to_bytes_ok by lia. cbn [vlift vbind].
+  destruct (N.ltb_spec ((lenN file - off - 1) * 8) len) as [Hq|Hq]; [exact I|].
+  rewrite uadd_ok by lia. cbn [vlift vbind]. replace (lenN file <? off + 1) with false by lia.
+  cbn [new_safe mb_len]. split; [reflexivity|lia].
+Qed.
+
+Lemma mstr_new_any m file off :
+  lenN file < 2 ^ 61 ->
+  new_safe (mstr_new m file off) (fun b => b = mkmb file off (mb_len b) /\ off + 1 + (mb_len b + 7) / 8 <= lenN file).
+Proof.
+  intros Hf. unfold mstr_new. pose proof (mb_new_any m file off Hf) as H.
+  destruct (mb_new m file off) as [b| | |]; cbn [new_safe vbind] in *; try exact H.
+  destruct H as (Hb & Hl).
+  destruct (mb_inside_backed file b) as (l & -> & _); [split; [rewrite Hb; reflexivity|rewrite Hb; cbn [mb_off mb_len]; exact Hl]|].
+  cbn [vlift vbind]. destruct (mp_utf8_valid l); cbn [new_safe]; [split; assumption|exact I].
+Qed.
+
+Lemma rm_new_any m file off :
+  lenN file < 2 ^ 64 ->
+  new_safe (rm_new m file off)
+    (fun r => rm_data r = mkms file (off + 1) (ms_len (rm_data r)) /\ off + 2 + ms_len (rm_data r) <= lenN file).
+Proof.
+  intros Hf. unfold rm_new. destruct (N.leb_spec (lenN file) off) as [Ho|Ho]; [exact I|].
+  destruct (nthN_lt_Some file off Ho) as [len Hn]. rewrite (idx_some _ _ _ Hn). cbn [vlift vbind].
+  rewrite uadd_ok by lia. cbn [vlift vbind].
+  pose proof (ms_new_any m 1 file (off + 1) ltac:(lia) Hf) as H.
+  destruct (ms_new m 1 file (off + 1)) as [s| | |]; cbn [new_safe vbind] in *; try exact H.
+  destruct H as (Hs & Hl). cbn [rm_data]. split; [exact Hs|lia].
+Qed.
+
+Lemma im_new_any m file off :
+  lenN file < 2 ^ 64 ->
+  new_safe (im_new m file off)
+    (fun i => rm_data (im_data i) = mkms file (off + 3) (ms_len (rm_data (im_data i))) /\
+              off + 4 + ms_len (rm_data (im_data i)) <= lenN file).
+Proof.
+  intros Hf. unfold im_new. destruct (N.leb_spec (lenN file) off) as [Ho|Ho]; [exact I|].
+  rewrite uadd_ok by lia. cbn [vlift vbind].
+  destruct (N.leb_spec (lenN file) (off + 1)) as [Ho1|Ho1]; [exact I|].
+  destruct (nthN_lt_Some file off Ho) as [len Hn]. rewrite (idx_some _ _ _ Hn). cbn [vlift vbind].
+  rewrite uadd_ok by lia. cbn [vlift vbind].
+  destruct (nthN_lt_Some file (off + 1) Ho1) as [w Hw]. rewrite (idx_some _ _ _ Hw). cbn [vlift vbind].
+  pose proof (rm_new_any m file (off + 2) Hf) as H.
+  destruct (rm_new m file (off + 2)) as [r| | |]; cbn [new_safe vbind] in *; try exact H.
+  destruct H as (Hs & Hl). cbn [im_data]. split; [rewrite Hs; f_equal; lia|lia].
+Qed.
+
+Definition is_opt (t : vtype) : bool := match t with TyOpt _ => true | _ => false end.
+
+Theorem any_file_no_panic : forall m t file offset,
+  lenN file < 2 ^ 61 -> offset < 2 ^ 64 ->
+  new_safe (view_new m t file offset) (fun v =>
+    view_inside file v /\ view_backed v /\
+    view_map_offset m v = Ok offset /\
+    (is_opt t = false -> exists l, view_map_len m v = Ok l /\ offset + l <= lenN file)).
+Proof.
+  intros m t. induction t as [| | | | | |t' IH]; intros file offset Hf _; cbn [view_new is_opt].
+  - pose proof (ms_new_any m 1 file offset ltac:(lia) ltac:(lia)) as H.
+    destruct (ms_new m 1 file offset) as [s| | |]; cbn [new_safe vmap vbind] in *; try exact H.
+    destruct H as (Hs & Hl). assert (Hi : ms_inside 1 file s) by (rewrite Hs; split; [reflexivity|exact Hl]).
+    split; [exact Hi|]. split; [exact (view_inside_backed file (VwVec s) Hi)|].
+    rewrite Hs. cbn [view_map_offset view_map_len ms_map_offset ms_off]. split; [reflexivity|]. intros _.
+    rewrite ms_map_len_ok by lia. eexists. split; [reflexivity|lia].
+  - pose proof (ms_new_any m 2 file offset ltac:(lia) ltac:(lia)) as H.
+    destruct (ms_new m 2 file offset) as [s| | |]; cbn [new_safe vmap vbind] in *; try exact H.
+    destruct H as (Hs & Hl). assert (Hi : ms_inside 2 file s) by (rewrite Hs; split; [reflexivity|exact Hl]).
+    split; [exact Hi|]. split; [exact (view_inside_backed file (VwPairs s) Hi)|].
+    rewrite Hs. cbn [view_map_offset view_map_len ms_map_offset ms_off]. split; [reflexivity|]. intros _.
+    rewrite ms_map_len_ok by lia. eexists. split; [reflexivity|lia].
+  - pose proof (mb_new_any m file offset Hf) as H.
+    destruct (mb_new m file offset) as [b| | |]; cbn [new_safe vmap vbind] in *; try exact H.
+    destruct H as (Hs & Hl). assert (Hi : mb_inside file b) by (rewrite Hs; split; [reflexivity|exact Hl]).
+    split; [exact Hi|]. split; [exact (view_inside_backed file (VwBytes b) Hi)|].
+    rewrite Hs. cbn [view_map_offset view_map_len mb_map_offset mb_off]. split; [reflexivity|]. intros _.
+    rewrite mb_map_len_ok by lia. eexists. split; [reflexivity|lia].
+  - pose proof (mstr_new_any m file offset Hf) as H.
+    destruct (mstr_new m file offset) as [b| | |]; cbn [new_safe vmap vbind] in *; try exact H.
+    destruct H as (Hs & Hl). assert (Hi : mb_inside file b) by (rewrite Hs; split; [reflexivity|exact Hl]).
+    split; [exact Hi|]. split; [exact (view_inside_backed file (VwStr b) Hi)|].
+    rewrite Hs. cbn [view_map_offset view_map_len mb_map_offset mb_off]. split; [reflexivity|]. intros _.
+    rewrite mb_map_len_ok by lia. eexists. split; [reflexivity|lia].
+  - pose proof (rm_new_any m file offset ltac:(lia)) as H.
+    destruct (rm_new m file offset) as [[len s]| | |]; cbn [new_safe vmap vbind rm_data] in *; try exact H.
+    destruct H as (Hs & Hl). assert (Hi : ms_inside 1 file s) by (rewrite Hs; split; [reflexivity|cbn [ms_off ms_len]; lia]).
+    split; [exact Hi|]. split; [exact (view_inside_backed file (VwRaw (mkrm len s)) Hi)|].
+    rewrite Hs. cbn [view_map_offset view_map_len].
+    destruct (rm_map_ok m len file (offset + 1) (ms_len s)) as (Eo & El); [lia|lia|]. rewrite Eo, El.
+    split; [f_equal; lia|]. intros _. eexists. split; [reflexivity|lia].
+  - pose proof (im_new_any m file offset ltac:(lia)) as H.
+    destruct (im_new m file offset) as [[len w [rl s]]| | |]; cbn [new_safe vmap vbind rm_data im_data] in *; try exact H.
+    destruct H as (Hs & Hl). assert (Hi : ms_inside 1 file s) by (rewrite Hs; split; [reflexivity|cbn [ms_off ms_len]; lia]).
+    split; [exact Hi|]. split; [exact (view_inside_backed file (VwInt (mkim len w (mkrm rl s))) Hi)|].
+    rewrite Hs. cbn [view_map_offset view_map_len]. unfold im_map_offset, im_map_len. cbn [im_data].
+    destruct (rm_map_ok m rl file (offset + 3) (ms_len s)) as (Eo & El); [lia|lia|]. rewrite Eo, El. cbn [bind].
+    split; [rewrite usub_ok by lia; f_equal; lia|]. intros _. rewrite uadd_ok by lia. eexists. split; [reflexivity|lia].
+  - unfold mo_new. destruct (N.leb_spec (lenN file) offset) as [Ho|Ho]; [exact I|].
+    destruct (nthN_lt_Some file offset Ho) as [dl Hn]. rewrite (idx_some _ _ _ Hn). cbn [vlift vbind].
+    destruct (0 <? dl).
+    + rewrite uadd_ok by lia. cbn [vlift vbind].
+      specialize (IH file (offset + 1) Hf ltac:(lia)).
+      destruct (view_new m t' file (offset + 1)) as [v'| | |]; cbn [new_safe vmap vbind] in *; try exact IH.
+      destruct IH as (Hi & Hb & _). cbn [view_inside view_backed mo_data mo_off].
+      split; [split; assumption|]. split; [exact Hb|]. split; [reflexivity|]. intros H; discriminate H.
+    + cbn [new_safe vmap vbind view_inside view_backed mo_data mo_off].
+      split; [split; [exact Ho|exact I]|]. split; [exact I|]. split; [reflexivity|]. intros H; discriminate H.
 Qed.
